@@ -4,9 +4,11 @@ import (
 	"context"
 	"errors"
 	"fmt"
+	"log/slog"
 	"math/rand"
 	"net"
 	"sort"
+	"strings"
 	"sync"
 	"sync/atomic"
 	"time"
@@ -32,11 +34,40 @@ type dialRec struct {
 	ok      bool
 	conn    *faultconn.Conn
 	closedT atomic.Value // time.Time
+	// cachedSameAddr is the number of region clients for this address in the
+	// client's connection cache at the moment of the dial (the one being
+	// dialled included); -1 if it could not be sampled
+	cachedSameAddr int
 }
 
 type dialLog struct {
 	mu   sync.Mutex
 	recs []*dialRec
+	// client, once set, lets the dialer look at the connection cache
+	client atomic.Value // gohbase.Client
+	// declaredDead[addr] = times at which the client removed the connection
+	// to addr from its cache (its "removed region client" log statement)
+	declaredDead map[string][]time.Time
+}
+
+// logger returns a logger that records when the client declares a connection dead.
+func (dl *dialLog) logger() *slog.Logger {
+	return slog.New(&hookHandler{fa: func(msg string, attrs map[string]string) {
+		if msg != "removed region client" {
+			return
+		}
+		// attrs["client"] renders as RegionClient{Addr: host:port}
+		c := attrs["client"]
+		if i := strings.Index(c, "Addr: "); i >= 0 {
+			addr := strings.TrimSuffix(c[i+6:], "}")
+			dl.mu.Lock()
+			if dl.declaredDead == nil {
+				dl.declaredDead = map[string][]time.Time{}
+			}
+			dl.declaredDead[addr] = append(dl.declaredDead[addr], time.Now())
+			dl.mu.Unlock()
+		}
+	}})
 }
 
 type closeNotify struct {
@@ -54,7 +85,15 @@ func trackingDialer(cl *sim.Cluster, dl *dialLog, fault func(addr string, n int)
 	dial := cl.Dialer()
 	counts := map[string]int{}
 	return func(ctx context.Context, network, addr string) (net.Conn, error) {
-		rec := &dialRec{addr: addr, t: time.Now()}
+		rec := &dialRec{addr: addr, t: time.Now(), cachedSameAddr: -1}
+		if cl, _ := dl.client.Load().(gohbase.Client); cl != nil {
+			rec.cachedSameAddr = 0
+			for rc := range gohbase.VerifClients(cl) {
+				if rc.Addr() == addr {
+					rec.cachedSameAddr++
+				}
+			}
+		}
 		dl.mu.Lock()
 		dl.recs = append(dl.recs, rec)
 		counts[addr]++
@@ -80,6 +119,10 @@ func trackingDialer(cl *sim.Cluster, dl *dialLog, fault func(addr string, n int)
 func (dl *dialLog) judge(c *fw.Ctx, id, descr string, faultFree, quiescent bool) {
 	dl.mu.Lock()
 	recs := append([]*dialRec{}, dl.recs...)
+	dead := map[string][]time.Time{}
+	for a, l := range dl.declaredDead {
+		dead[a] = append([]time.Time{}, l...)
+	}
 	dl.mu.Unlock()
 	byAddr := map[string][]*dialRec{}
 	for _, r := range recs {
@@ -92,6 +135,29 @@ func (dl *dialLog) judge(c *fw.Ctx, id, descr string, faultFree, quiescent bool)
 			c.Violate(id, "conn:dialled-more-than-once", fmt.Sprintf("%s was dialled %d times in a fault-free run: %s", addr, len(l), descr), descr)
 		}
 		for i := 1; i < len(l); i++ {
+			// connections to addr that succeeded before this dial, and how many
+			// the client had removed from its cache (declared dead) by then
+			made, declared := 0, 0
+			for j := 0; j < i; j++ {
+				if l[j].ok {
+					made++
+				}
+			}
+			for _, t := range dead[addr] {
+				if !t.After(l[i].t) {
+					declared++
+				}
+			}
+			c.Count("redial_justifications_checked", int64(made))
+			// direct observation at the moment of the dial: the cache must not
+			// hold another region client for this address
+			if l[i].cachedSameAddr > 1 {
+				c.Violate(id, "conn:dial-while-another-connection-cached", fmt.Sprintf("dial #%d to %s started while the client's connection cache held %d region clients for that address: %s",
+					i+1, addr, l[i].cachedSameAddr, descr), descr)
+			}
+			if declared >= made || l[i].cachedSameAddr >= 0 {
+				continue
+			}
 			for j := 0; j < i; j++ {
 				p := l[j]
 				if !p.ok {
@@ -176,8 +242,9 @@ func runC20Case(c *fw.Ctx, id string, cs c20Case) {
 			return nil
 		}
 	}
-	client := gohbase.VerifNewClient(cl.ZK(), gohbase.RegionDialer(trackingDialer(cl, dl, fault)), gohbase.Logger(quietLogger),
+	client := gohbase.VerifNewClient(cl.ZK(), gohbase.RegionDialer(trackingDialer(cl, dl, fault)), gohbase.Logger(dl.logger()),
 		gohbase.RpcQueueSize(cs.Queue), gohbase.FlushInterval(time.Millisecond), gohbase.RegionLookupTimeout(3*time.Second), gohbase.RegionReadTimeout(3*time.Second))
+	dl.client.Store(client)
 	defer func() { within(3*time.Second, client.Close) }()
 	var opn int32
 	do := func(key string) error {
@@ -246,7 +313,7 @@ func init() {
 			"one dial per address in fault-free runs, every re-dial only after all earlier connections to that address were closed " +
 			"by the client, and at most one open connection per address at quiescence. distinct = configuration+seed; non-trivial " +
 			"= more than one region or more than one first user",
-		Assumptions: []string{"'declared dead' is observed as the client closing the connection (what the region client does first when it fails)"},
+		Assumptions: []string{"'declared dead' is observed as the client removing the connection from its cache (its log statement) or closing it, whichever the dial log shows first"},
 		Plan: func(tier string) fw.Plan {
 			if tier == "thorough" {
 				return fw.Plan{Batches: 32, Parallel: 16, Timeout: 30 * time.Minute}
